@@ -178,7 +178,7 @@ def scenarios(ctx):
 
 def run(ctx):
     ctx.mc('MC_RefDb', 'MC_RefDb.cfg', require_actions=['Check', 'Scan', 'Count'], workers=16,
-           overrides=dict(MaxGenomes=2, MaxSigs=3) if ctx.tier == 'quick' else dict(MaxGenomes=2, MaxSigs=4, Ids='{1, 2, 3, 4}'), timeout=5000,
+           overrides=dict(MaxGenomes=2, MaxSigs=3) if ctx.tier == 'quick' else dict(MaxGenomes=2, MaxSigs=3, Ids='{1, 2, 3, 4}'), timeout=5000,
            note='loading pipeline == definition for all genome sets (null patterns, unique constraints), all duplicate-free signature id '
                 'sequences incl. unrelated ids, id_attr none / valid / invalid; directory-listing rule over all 64 subsets (ASSUME)')
     tmp = tlc.mktmp('c04-')
